@@ -10,6 +10,7 @@ import (
 	"os"
 
 	"github.com/alibaba/sentinel-golang/core/base"
+	"github.com/alibaba/sentinel-golang/core/config"
 	"github.com/alibaba/sentinel-golang/core/stat"
 	sbase "github.com/alibaba/sentinel-golang/core/stat/base"
 
@@ -35,6 +36,7 @@ type run struct {
 	clk   *hx.VClock
 	arr   *sbase.BucketLeapArray
 	node  *stat.BaseStatNode
+	gauge int64 // entries the driver holds "in flight" on the node (gauge ops)
 	nvn   int64
 	nvi   int64
 	views []*view
@@ -127,8 +129,12 @@ func main() {
 				}
 			}
 			if r.mode == "node" {
-				// parent geometry is the configured global one (20 x 500 ms); the first view is the node's own metric
-				r.pn, r.pbl = 20, 500
+				// parent geometry is the configured global one (20 x 500 ms by default; VERIF_STAT_CFG selects another one for the
+				// whole process and the scenario names it); the first view is the node's own metric
+				if cfg := hx.Str(s, "cfg"); cfg != os.Getenv("VERIF_STAT_CFG") {
+					hx.Fatal("trace %d wants statistic configuration %q, the process runs with %q", hx.Int(s, "tr"), cfg, os.Getenv("VERIF_STAT_CFG"))
+				}
+				r.pn, r.pbl = int64(config.GlobalStatisticSampleCountTotal()), int64(config.GlobalStatisticBucketLengthInMs())
 				r.nvn, r.nvi = vws[0][0], vws[0][1]
 				r.node = stat.NewBaseStatNode(uint32(r.nvn), uint32(r.nvi))
 				for _, v := range vws[1:] {
@@ -161,6 +167,22 @@ func main() {
 				r.node.UpdateConcurrency(int32(c))
 			} else {
 				r.arr.UpdateConcurrency(int32(c))
+			}
+			tr.Emit(hx.M{"op": "conc", "c": c, "obs": r.obs()})
+		case "gauge":
+			// the node's in-flight gauge: IncreaseConcurrency samples the new gauge value as a concurrency amount at the current
+			// instant, DecreaseConcurrency samples nothing.  The driver keeps its own count: that is what the reference is told.
+			if r.node == nil {
+				hx.Fatal("gauge op outside node mode")
+			}
+			c := int64(0)
+			if hx.Int(s, "d") > 0 {
+				r.gauge++
+				r.node.IncreaseConcurrency()
+				c = r.gauge
+			} else if r.gauge > 0 {
+				r.gauge--
+				r.node.DecreaseConcurrency()
 			}
 			tr.Emit(hx.M{"op": "conc", "c": c, "obs": r.obs()})
 		case "tick":
